@@ -104,3 +104,32 @@ func VerifCRDV2MultiIP(ctx context.Context, c client.Client, nodeName string, cn
 		return nil
 	}
 }
+
+// ---- the node agent's teardown reports (C03) ---------------------------------------------------------------------
+
+// VerifNewCRDV2 builds the CRD-mode resource manager around a client; no controller manager, no background loops.
+func VerifNewCRDV2(c client.Client, nodeName string) *CRDV2 {
+	return &CRDV2{client: c, scheme: c.Scheme(), nodeName: nodeName, deletedPods: map[string]*podENITypes.RuntimePodStatus{}}
+}
+
+// VerifCRDV2MultiIPOn is VerifCRDV2MultiIP on an existing manager (the answer clears the uid's pending teardown report).
+func VerifCRDV2MultiIPOn(ctx context.Context, r *CRDV2, cni *daemon.CNI) *AllocResp {
+	ch, _ := r.multiIP(ctx, cni, NewLocalIPRequest())
+	select {
+	case resp := <-ch:
+		return resp
+	case <-ctx.Done():
+		return nil
+	}
+}
+func (r *CRDV2) VerifSyncNodeRuntime(ctx context.Context) error { return r.syncNodeRuntime(ctx) }
+func (r *CRDV2) VerifSyncDeletedPods(ctx context.Context) error { return r.syncDeletedPods(ctx) }
+func (r *CRDV2) VerifPending() []string {
+	r.lock.Lock()
+	defer r.lock.Unlock()
+	var out []string
+	for k := range r.deletedPods {
+		out = append(out, k)
+	}
+	return out
+}
